@@ -141,6 +141,16 @@ Theorem C15_deleted_gone : forall validate s gw keys s' out,
 Proof. exact delete_gone. Qed.
 Print Assumptions C15_deleted_gone.
 
+(* (7'') A REJECTED rename changes nothing: renameGateway validates in the metadata update (every
+   key exists, none internal) before anything is written, and from a consistent state the engine
+   cannot refuse afterwards — whatever error it returns, metadata and engine are untouched. *)
+Theorem C15_rename_rejected_no_effect : forall host s keys names s' er,
+  Inv s -> Cons s -> is_Some (s_eng s !! host) -> length keys = length names ->
+  (forall k, k ∈ keys -> leaseholder k = host) ->
+  rename_gateway host s keys names = (s', er) -> er <> EOk -> s' = s.
+Proof. exact rename_gateway_rejected. Qed.
+Print Assumptions C15_rename_rejected_no_effect.
+
 (* The pinned upstream tree breaks (7) with one successful delete of a leased virtual channel
    (finding F9, fixed by a4733ea): the deleted key stays in use in the engine. On the current tree
    the same history is consistent and the key is gone. *)
@@ -189,6 +199,15 @@ Theorem C15_names_unique_refuted :
   all_ok true true w_s0 w_f41 = true /\ names_ok_b (run true true w_s0 w_f41) = false.
 Proof. exact f41_current. Qed.
 Print Assumptions C15_names_unique_refuted.
+
+(* re-submission of an existing calculated channel with its key next to a new channel: keys 1..4,
+   counter 4, nothing reused (the history that seeded change C15_1 breaks) *)
+Example C15_resubmit_with_key :
+  all_ok true true w_s0 w_resubmit = true /\
+  bool_decide (dom (s_tab (run true true w_s0 w_resubmit)) =
+               {[new_key node_free 1; new_key node_free 2; new_key node_free 3; new_key node_free 4]}) = true /\
+  s_free (run true true w_s0 w_resubmit) = 4.
+Proof. exact w_resubmit_facts. Qed.
 
 (* Non-vacuity: the empty two-node cluster satisfies the invariant and is consistent; a history of
    plain operations creating an index, a
